@@ -142,7 +142,9 @@ def fill(claim, NA):
 		  "Theorems (Props/C12.lean): bellman (for every period and state the reported cost is attained at the reported order-up-to level y* in [x, x_max], no y >= x on the grid is "
 		  "cheaper, and y* is the first minimiser), bestAt_unique, eval_reproduces_opt (evaluation mode with the optimiser's order-up-to row reproduces the cost row), cost_le_stay, "
 		  "cand_shift + K_zero_base_stock (K_t = 0: every state at or below S orders up to exactly S, no state above S does) + reorderPos_eq (so the extracted reorder point equals the "
-		  "order-up-to level), solve_shape (defined for every horizon length incl. T = 1). Tie: every cell of cost_matrix vs the exact model fed with the code's own probability tables "
+		  "order-up-to level), solve_shape (defined for every horizon length incl. T = 1); OPTIMAL POLICY (Props/C12Opt.lean): dp_dominates_every_policy - for any horizon and ANY "
+		  "state-dependent order-up-to rule on the grid (not only (s,S) rules), the expected cost of operating that rule (the code's evaluation mode) is, in every period and state, at least "
+		  "the cost the optimiser reports (non-negative probabilities and discount factors, checked per instance by the driver). Tie: every cell of cost_matrix vs the exact model fed with the code's own probability tables "
 		  "and the DOCUMENTED one-period cost (1e-8), oul by objective value, (s,S) extraction, evaluation mode, K=0, T=1; myopic bounds per instance (labelled test).",
 		  "Trusted: Lean kernel + 3 axioms; harness; SciPy pmf/cdf and the loss-function values (inputs); FP in the grid-truncation rules (re-derived in the harness). "
 		  "Range doubling is handled by taking the x_range the code returns (the model reports whether the optimum sits at the top of the grid).")
